@@ -62,6 +62,8 @@ var _ *imapserver.FetchWriter
 //@ func (mbox *Mailbox) appendBytes(buf []byte, options *imap.AppendOptions) (result *imap.AppendData)
 //@   props C09:post,pre@call
 //@   requires mbox != nil && options != nil && mbox.tracker != nil && mbox.uidNext < 4294967295
+//@   requires len(mbox.l) < 4294967295 && imapserver.TrackerCount(mbox.tracker) == uint32(len(mbox.l))
+//@   ensures imapserver.TrackerCount(mbox.tracker) == uint32(len(mbox.l))
 //@   ensures result != nil && result.UID == old(mbox.uidNext) && result.UIDValidity == mbox.uidValidity
 //@   ensures mbox.uidNext == old(mbox.uidNext)+1 && mbox.uidValidity == old(mbox.uidValidity)
 //@   ensures len(mbox.l) == old(len(mbox.l))+1 && mbox.l[len(mbox.l)-1] != nil && mbox.l[len(mbox.l)-1].uid == old(mbox.uidNext)
@@ -137,3 +139,47 @@ var _ = strings.ToLower
 //@   props C09:callsite C08:callsite
 //@   requires mbox != nil
 //@   callsite staticNumRange(start, stop *uint32, max uint32) requires start != nil && stop != nil && start != stop && (max == uint32(len(mbox.l)) || max == uint32(mbox.uidNext)-1)
+
+// ---------------------------------------------------------------------------
+// Removing messages (EXPUNGE, MOVE): exactly the given messages leave the list,
+// each is queued for reporting exactly once with the sequence number it has at
+// that moment (highest first, so earlier removals do not shift later ones), the
+// tracker's preconditions hold at every QueueExpunge (no misuse panic), and the
+// tracker's count stays equal to the length of the list.
+
+//@ pure
+func inExpunged(expunged map[*message]struct{}, msg *message) bool {
+	_, ok := expunged[msg]
+	return ok
+}
+
+//@ func (mbox *Mailbox) expungeLocked(expunged map[*message]struct{}) (seqNums []uint32)
+//@   props C08 C09
+//@   requires mbox != nil && mbox.tracker != nil && len(mbox.l) < 4294967296
+//@   requires imapserver.TrackerCount(mbox.tracker) == uint32(len(mbox.l))
+//@   ensures imapserver.TrackerCount(mbox.tracker) == uint32(len(mbox.l))
+//@   ensures len(mbox.l)+len(seqNums) == old(len(mbox.l))
+//@   ensures forall k int :: 0 <= k && k < len(mbox.l) ==> !inExpunged(expunged, mbox.l[k])
+//@   ensures forall k int :: 0 <= k && k < len(seqNums) ==> 1 <= seqNums[k] && int(seqNums[k]) <= old(len(mbox.l))
+//@   ensures forall a int :: forall b int :: 0 <= a && a < b && b < len(seqNums) ==> seqNums[a] > seqNums[b]
+//@   loop 0 vars (seqNums []uint32, filtered []*message, i int)
+//@   loop 0 invariant -1 <= i && i < len(mbox.l) && len(mbox.l) == old(len(mbox.l)) && __fresh(filtered) && __fresh(seqNums)
+//@   loop 0 invariant len(filtered)+len(seqNums) == len(mbox.l)-1-i
+//@   loop 0 invariant imapserver.TrackerCount(mbox.tracker) == uint32(len(mbox.l)-len(seqNums))
+//@   loop 0 invariant forall k int :: 0 <= k && k < len(filtered) ==> !inExpunged(expunged, filtered[k])
+//@   loop 0 invariant forall k int :: 0 <= k && k < len(seqNums) ==> int(seqNums[k]) > i+1 && int(seqNums[k]) <= len(mbox.l)
+//@   loop 0 invariant forall a int :: forall b int :: 0 <= a && a < b && b < len(seqNums) ==> seqNums[a] > seqNums[b]
+//@   loop 0 decreases i + 1
+//@   loop 1 vars (i int)
+//@   loop 1 locals (filtered []*message)
+//@   loop 1 invariant 0 <= i && i <= len(filtered)/2
+//@   loop 1 invariant forall k int :: 0 <= k && k < len(filtered) ==> !inExpunged(expunged, filtered[k])
+//@   loop 1 decreases len(filtered)/2 - i
+
+// EXPUNGE removes exactly the messages that carry \\Deleted (restricted to the
+// given UIDs for UID EXPUNGE) through expungeLocked, whose preconditions hold.
+//
+//@ func (mbox *Mailbox) Expunge(w *imapserver.ExpungeWriter, uids *imap.UIDSet) (err error)
+//@   props C08:pre@call C09:pre@call
+//@   requires mbox != nil && mbox.tracker != nil && len(mbox.l) < 4294967296
+//@   requires imapserver.TrackerCount(mbox.tracker) == uint32(len(mbox.l))
